@@ -24,7 +24,7 @@ type Model struct {
 	Claim, Token, LeaderID, State, Revision string
 	OnPromote, OnDemote                     string
 	KV, Key, Cfg                            string
-	Ctx, Cancel, TermCancel, WG, Mu         string
+	Ctx, Cancel, TermCancel, TermCtx, WG, Mu string
 	HealthCounter                           string
 	ConnMonitor, DiscHandler                string
 
@@ -44,6 +44,7 @@ type Model struct {
 	StopUnits   []*ssa.Function // stop cores and the exported methods that reach one
 	DemoteUnits []*ssa.Function // non-stop claim-clear units
 
+	termBoundMemo map[*ssa.Function]int
 	callers map[*ssa.Function][]CallSite // static call / go / defer sites inside the library
 	guards  map[*ssa.BasicBlock][]Lit
 	facts   map[factKey]factResult
@@ -160,7 +161,7 @@ func buildModel(p *Program) *Model {
 	st := m.Impl.Underlying().(*types.Struct)
 
 	// fields by type
-	var cancels, atomicBools []string
+	var cancels, atomicBools, ctxs []string
 	for i := 0; i < st.NumFields(); i++ {
 		f := st.Field(i)
 		t := f.Type()
@@ -170,7 +171,7 @@ func buildModel(p *Program) *Model {
 		case isNamed(t, lp.Pkg.Path(), "ElectionConfig"):
 			m.Cfg = f.Name()
 		case isNamed(t, "context", "Context"):
-			m.Ctx = f.Name()
+			ctxs = append(ctxs, f.Name())
 		case isNamed(t, "context", "CancelFunc"):
 			cancels = append(cancels, f.Name())
 		case isNamed(t, "sync", "WaitGroup"):
@@ -288,6 +289,12 @@ func buildModel(p *Program) *Model {
 							m.Cancel = c
 						}
 					}
+					// likewise the election context (a second context field is the term's)
+					for _, c := range ctxs {
+						if a.Op == "addr" && a.Name == m.ImplName+"."+c {
+							m.Ctx = c
+						}
+					}
 				}
 			}
 		}
@@ -295,6 +302,14 @@ func buildModel(p *Program) *Model {
 	for _, c := range cancels {
 		if c != m.Cancel {
 			m.TermCancel = c
+		}
+	}
+	if m.Ctx == "" && len(ctxs) == 1 {
+		m.Ctx = ctxs[0]
+	}
+	for _, c := range ctxs {
+		if c != m.Ctx {
+			m.TermCtx = c
 		}
 	}
 
